@@ -6,8 +6,8 @@ from .. import inputs
 from . import geom
 
 SPEC = dict(
-    technique='Lean 4 proof (exp = Rodrigues/screw closed form, exp(log R) = R on the general branch; regenerated model) + float monitor of the singular bands',
-    lean_modules=['SmVerif.Props.C03'],
+    technique='Lean 4 proof (exp = Rodrigues/screw closed form in 3-D, rotation / se(2) closed form in 2-D, exp(log R) = R on the general branch; regenerated model) + float monitor of the singular bands',
+    lean_modules=['SmVerif.Props.C03', 'SmVerif.Props.Exp2'],
     groups=['Transforms3d', 'Transforms2d', 'TransformsNd', 'Vectors'],
     expected_untranslatable=('trinterp_T', 'trinterp_T_nostart'),
     partial=['identification with the power-series matrix exponential is by the one-parameter-group characterisation; '
@@ -31,7 +31,7 @@ def ref_exp(S):
 
 def rot_magnitude(g):
     r = g.random()
-    if r < 0.35: return 10.0 ** g.uniform(-12, math.log10(math.pi))
+    if r < 0.35: return 10.0 ** g.uniform(-17, math.log10(math.pi))
     if r < 0.6: return math.pi - 10.0 ** g.uniform(-12, -1)
     if r < 0.65: return math.pi
     return float(g.uniform(0, math.pi))
@@ -54,7 +54,7 @@ def _impl(tier, seed, search):
     g = inputs.rng(seed)
     n = 150 if tier == 'quick' else 3000
     if search: n *= 3
-    L = Laws('C03', rule='rotation vectors with magnitude log-uniform 1e-12..pi and pi-1e-12..pi, coordinate / near-degenerate / random axes, '
+    L = Laws('C03', rule='rotation vectors with magnitude 0, log-uniform 1e-17..pi (fixed points around 10 and 100 eps) and pi-1e-12..pi, coordinate / near-degenerate / random axes, '
                          'translations 0..1e6, vector and matrix forms, twist on/off, 2-D and 3-D; a case = one law instance')
     TOL = 1e-7
     def finite_real(x):
@@ -63,8 +63,11 @@ def _impl(tier, seed, search):
             try: x = x.astype(float)
             except (TypeError, ValueError): return False
         return (not np.iscomplexobj(x)) and bool(np.all(np.isfinite(x.astype(float))))
+    TINY = (0.0, 1e-17, 1e-15, 2.5e-15, 5e-15, 1e-14, 2e-14, 3e-14, 1e-13, 1e-12)   # around the library's zero thresholds (10 and 100 eps)
     for i in range(n):
-        th = rot_magnitude(g); ax = axis(g); w = ax * th
+        th = rot_magnitude(g); ax = axis(g)
+        if i < len(TINY): th = TINY[i]
+        w = ax * th
         tmag = 0.0 if g.random() < 0.15 else 10.0 ** g.uniform(-6, 6)
         v = g.normal(size=3); v = v / np.linalg.norm(v) * tmag
         # ---- exp against the reference exponential -------------------------------------
